@@ -28,6 +28,9 @@ VARIANTS = {
     'core': ([], 'distributed/no_mpi.c', []),
     'core_small': (['-DRSV_B_TOTAL_EXP=8U', '-DRSV_B_BLOCK_EXP=4U'], 'distributed/no_mpi.c', []),
     'core_mpi': ([], 'distributed/mpi.c', [os.path.join(VERIF, 'hx', 'fakempi')]),
+    # the pinned test build is -DNDEBUG: struct lp_msg is smaller there (no sender fields) and asserts are off
+    'core_ndebug': (['-DNDEBUG'], 'distributed/no_mpi.c', []),
+    'core_mpi_ndebug': (['-DNDEBUG'], 'distributed/mpi.c', [os.path.join(VERIF, 'hx', 'fakempi')]),
 }
 
 
@@ -129,11 +132,15 @@ def prune_build_root(keep):
         return
     ents.sort(key=lambda p: os.path.getmtime(p), reverse=True)
     kept = 0
+    now = time.time()
     for e in ents:
         if os.path.basename(e) == keep:
             continue
         kept += 1
-        if kept >= 3:
+        # keep a few recent trees (a concurrent check may be running from one of them); never touch young ones
+        if kept >= 8 and now - os.path.getmtime(e) > 2 * 3600:
+            shutil.rmtree(e, ignore_errors=True)
+        elif kept >= 40:
             shutil.rmtree(e, ignore_errors=True)
 
 
